@@ -6,6 +6,7 @@ Shape grammar (shared with harness/c12_nodelist.cpp and lean/Driver/C12.lean):
     no adjacent text nodes, exactly one top-level element)
 """
 import itertools
+import re
 
 
 # ---------------------------------------------------------------------------------------------
@@ -20,8 +21,12 @@ def gen_children(r, budget, depth, top):
     for _ in range(n):
         if used >= budget:
             break
-        k = r.weighted([("e", 6), ("t", 3), ("c", 1), ("p", 1)])
-        if k == "t":
+        k = r.weighted([("e", 6), ("t", 3), ("c", 1), ("p", 1), ("d", 1)])
+        if k == "d":
+            if top:
+                continue
+            out.append("d"); used += 1; last_text = False      # CDATA section, may touch text and other CDATA sections
+        elif k == "t":
             if last_text or top:
                 continue
             out.append("t"); used += 1; last_text = True
@@ -52,6 +57,9 @@ def parse_shape(shape, rep):
     """-> (kinds string, parents list) of the pre-order walk (document = node 0), as the three
     representations expose it: the source tree (rep 'S') gives the document element one extra
     attribute node (the implicit xmlns:xml declaration)."""
+    if rep == "S":
+        # the source tree follows the XPath data model: adjacent character data (text, CDATA) is one text node
+        shape = re.sub(r"[td]+", "t", shape)
     kinds = ["D"]
     parents = [-1]
     pos = 0
@@ -77,7 +85,7 @@ def parse_shape(shape, rep):
                 assert shape[pos] == ")"
                 pos += 1
             else:
-                assert c in "tcp"
+                assert c in "tcpd"
                 kinds.append(c); parents.append(parent)
                 pos += 1
     nodes(0, True)
@@ -101,6 +109,7 @@ def all_shapes(maxnodes):
         if allow_text_first:
             firsts.append(("t", 1, False))
         firsts.append(("c", 1, True))
+        firsts.append(("d", 1, True))       # CDATA section: may touch text and other CDATA sections
         for tag, na, cost in (("e", 0, 0), ("e", 1, 1), ("e", 2, 2), ("E", 0, 1), ("E", 1, 2)):
             if 1 + cost <= budget:
                 for sub, u in seqs(budget - 1 - cost, True):
@@ -561,3 +570,38 @@ def gen_rtf_case(r, nvars, corpus=False):
                    '<xsl:apply-templates select="." mode="lab"/></xsl:for-each>' % (k, ns, ns, ns, ns, ns))
     sheet = RTF_SHEET_HEAD + "\n".join(decl) + "\n" + "\n".join(out) + '\n<xsl:text>&#10;</xsl:text>\n</xsl:template>\n</xsl:stylesheet>\n'
     return sheet, bodies
+
+
+# ---------------------------------------------------------------------------------------------
+# documents given as XML text with every DOM node kind (requests xmldoc / identity / nodesets)
+
+def gen_rich_xml(r, maxnodes):
+    """DOCTYPE with an internal subset (ID attribute, entities with and without markup), CDATA sections next to text
+    and to each other, entity references, comments, PIs, nested elements with IDs"""
+    n = [0]
+
+    def content(budget, depth):
+        out = ""
+        k = r.range(0, min(budget, 6))
+        for _ in range(k):
+            kind = r.weighted([("t", 4), ("d", 4), ("e", 4), ("c", 1), ("p", 1), ("r", 2), ("m", 1)])
+            if kind == "t":
+                out += "tx"
+            elif kind == "d":
+                out += "<![CDATA[c<d]]>"
+            elif kind == "c":
+                out += "<!--c-->"
+            elif kind == "p":
+                out += "<?p d?>"
+            elif kind == "r":
+                out += "&en;"
+            elif kind == "m":
+                out += "&em;"
+            elif depth < 4:
+                n[0] += 1
+                me = n[0]
+                out += '<e id="x%d"%s>%s</e>' % (me, ' a="v"' if r.chance(1, 2) else "", content(budget // 2, depth + 1))
+        return out
+    body = content(maxnodes, 1)
+    return ('<?xml version="1.0"?><!DOCTYPE e [<!ATTLIST e id ID #IMPLIED><!ENTITY en "ent"><!ENTITY em "m<e/>n">]>'
+            '<!--pre--><e id="x0">%s</e><?post d?>' % body)
